@@ -112,6 +112,12 @@ class Result(object):
     # -- recording -------------------------------------------------------------
     def case(self, case_repr=None, nontrivial=True, sig=None):
         self.evaluations += 1
+        if self.evaluations % 8 == 0:
+            try:
+                from . import boot as _boot
+                _boot.reap_env_children()
+            except Exception:
+                pass
         if nontrivial:
             self.digests.add(sig if sig is not None else digest(case_repr))
         if case_repr is not None and len(self.samples) < self.MAX_SAMPLES:
